@@ -1,0 +1,20 @@
+//go:build verif
+
+package kv
+
+import (
+	"context"
+
+	xkv "github.com/synnaxlabs/x/kv"
+)
+
+// VerifDigest reads the digest (version, leaseholder, variant of the winning operation)
+// stored next to a key. Exported for verification harnesses built with the verif tag.
+func VerifDigest(ctx context.Context, r xkv.Reader, key []byte) (Digest, error) {
+	return getDigestFromKV(ctx, r, key)
+}
+
+// VerifSupersedes exposes the conflict-resolution rule.
+func VerifSupersedes(ctx context.Context, r xkv.Reader, op Operation) (bool, error) {
+	return supersedes(ctx, r, op)
+}
